@@ -197,13 +197,13 @@ def obligations(tier):
     # C07.b: unlinking one name of a multiply-linked file AFTER RE-OPEN (link counts rebuilt by the parser): the harness is C02's open_edit
     # (master, open, edit, master, open; the other names must still resolve to the same extent and length)
     from vf.props import C02
-    for ob in C02.obligations(tier):
+    for ob in C02.obligations('quick'):      # the one-symbolic-length variants in both tiers (three symbolic lengths cost up to 50 min each: C02's thorough tier)
         ed = ob['params'].get('edit')
         if ob['func'] == 'open_edit' and ed in ('rm_udf_link', 'rm_link'):
             ob = dict(ob)
             ob['name'] = ob['name'].replace('C02.b/', 'C07.b/reopened_')
             obs.append(ob)
-    if tier == 'quick':
+    if True:
         c = skel.cfg_of(3, None, None, False, False)
         obs.append({'name': 'C07.b/reopened_rm_link/%s' % skel.cfg_name(c), 'module': 'vf.props.C02', 'func': 'open_edit',
                     'params': {'cfg': c, 'edit': 'rm_link', 'fixed': [0, 2049]}, 'cond_timeout': 1500, 'path_timeout': 400,
